@@ -3,6 +3,7 @@ package main
 import (
 	"math/rand"
 	"sort"
+	"strconv"
 	"strings"
 
 	"github.com/evolbioinfo/goalign/io/fasta"
@@ -146,6 +147,45 @@ func c12(c *Sexp) *Sexp {
 			obs.List = append(obs.List, KV("sites", sites))
 		}
 		return obs
+	case "star":
+		// a star tree with n tip children, built here (the case only gives the number of tips per state):
+		// state i is carried by counts[i] tips; observed: steps, the states of the root, the number of
+		// tips whose annotation is not their own state
+		counts := c.IntList("counts")
+		names := c.StrList("names")
+		slots := L()
+		tipstates := make(map[string]string)
+		tipstate := []string{}
+		id := 0
+		for i, cnt := range counts {
+			for j := 0; j < cnt; j++ {
+				nm := "w" + strconv.Itoa(id)
+				id++
+				tipstates[nm] = names[i]
+				tipstate = append(tipstate, names[i])
+				slots.List = append(slots.List, L(A("D"), A("-1"), A("-1"), A("-1"), L(), L(A("N"), A(nm), L(), L(A("U")))))
+			}
+		}
+		t, bad := c12Build(L(A("N"), A(""), L(), slots))
+		if bad != nil {
+			return bad
+		}
+		_, nsteps, err := acr.ParsimonyAcr(t, tipstates, c12AcrAlgo(c.Str("algo")), false)
+		altered := 0
+		rootstates := L()
+		if err == nil {
+			for i, n := range t.Nodes() {
+				cm := strings.Join(n.Comments(), "+")
+				if i == 0 {
+					for _, st := range strings.Split(cm, "|") {
+						rootstates.List = append(rootstates.List, A(st))
+					}
+				} else if cm != tipstate[i-1] {
+					altered++
+				}
+			}
+		}
+		return L(KV("err", A(errStr(err))), KV("steps", I(nsteps)), KV("root", rootstates), KV("altered", I(altered)))
 	}
 	return L(KV("panic", A("unknown kind")))
 }
